@@ -476,6 +476,19 @@ func (g *gctx) twoD(typ string, budget int) shp {
 		}
 	}
 
+	// zero-vertex loops (chains of length 0) at drawn positions of a lax polygon:
+	// they add no edge, but every cumulative-offset lookup has to step over them
+	if typ == "laxpolygon" && rapid.IntRange(0, 2).Draw(t, "zeroloops") == 0 {
+		for i, k := 0, rapid.IntRange(1, 2).Draw(t, "nzero"); i < k; i++ {
+			pos := rapid.IntRange(0, len(s.L)).Draw(t, "zpos")
+			s.L = append(s.L[:pos], append([][]gen.P{{}}, s.L[pos:]...)...)
+			for len(holes) < len(s.L)-1 {
+				holes = append(holes, false)
+			}
+			holes = append(holes[:pos], append([]bool{false}, holes[pos:]...)...)
+		}
+	}
+
 	// orientation handed to the constructor
 	if typ == "laxpolygon" {
 		for k := range s.L {
